@@ -224,8 +224,9 @@ Mutate(e) ==
                    ELSE {F(e, "C02", "bind: the group partition is not the one the joining rules give (hook)")})
       \* C06: a bind of two ungrouped vertices with fewer than MaxGroups groups alive must form a group (hook), whatever
       \* lived and died before; and once groups have been collected, nothing may panic or survive/die wrongly
-      formsok == e.panic \/ Broken(o) \/ e.op # "bind" \/ GroupOf(g, e.v1) # {} \/ GroupOf(g, e.v2) # {}
-                 \/ \E G \in ObsGroups(o) : e.v1 \in G /\ e.v2 \in G
+      \* (a panic of such a bind is a group that was not formed: the statement promises the group, not only silence)
+      formsok == e.op # "bind" \/ GroupOf(g, e.v1) # {} \/ GroupOf(g, e.v2) # {}
+                 \/ (~e.panic /\ (Broken(o) \/ \E G \in ObsGroups(o) : e.v1 \in G /\ e.v2 \in G))
       c06 == (IF div \/ formsok THEN {} ELSE {F(e, "C06", "binding two ungrouped vertices did not form a group although fewer than 14 are alive")})
              \cup (IF div \/ aliveok \/ (~e.panic /\ Broken(o)) \/ ncoll = 0 THEN {}
                    ELSE {F(e, "C06", "after earlier collections: panic or alive set differs")})
